@@ -44,9 +44,9 @@ def _catalogue():
     C['aspect'] = (1, 1, lambda v, r, x: xrspatial.aspect(r[0]), True, 'elev')
     C['curvature'] = (1, 1, lambda v, r, x: xrspatial.curvature(r[0]), True, 'elev')
     C['hillshade'] = (1, 3, lambda v, r, x: xrspatial.hillshade(r[0]) if v == 0 else xrspatial.hillshade(r[0], azimuth=[0, 90, 300][v], angle_altitude=[0, 45, 10][v]), True, 'elev')
-    C['focal.mean'] = (1, 4, lambda v, r, x: [focal.mean(r[0]), focal.mean(r[0], passes=2), focal.mean(r[0], excludes=[0]), focal.mean(r[0], passes=3, excludes=[np.nan, 1.0])][v], True, 'small')
+    C['focal.mean'] = (1, 4, lambda v, r, x: [lambda: focal.mean(r[0]), lambda: focal.mean(r[0], passes=2), lambda: focal.mean(r[0], excludes=[0]), lambda: focal.mean(r[0], passes=3, excludes=[np.nan, 1.0])][v](), True, 'small')
     C['focal.apply'] = (1, 4, lambda v, r, x: focal.apply(r[0], [K3, K35, K13, K3][v], [focal._calc_mean, focal._calc_sum, focal._calc_max, focal._calc_std][v]), True, 'small')
-    C['focal_stats'] = (1, 3, lambda v, r, x: [focal.focal_stats(r[0], K3), focal.focal_stats(r[0], K35, ['sum', 'max']), focal.focal_stats(r[0], K13, ['range'])][v], True, 'small')
+    C['focal_stats'] = (1, 3, lambda v, r, x: [lambda: focal.focal_stats(r[0], K3), lambda: focal.focal_stats(r[0], K35, ['sum', 'max']), lambda: focal.focal_stats(r[0], K13, ['range'])][v](), True, 'small')
     C['hotspots'] = (1, 3, lambda v, r, x: focal.hotspots(r[0], [K3, K35, K13][v]), True, 'elev')
     C['convolution_2d'] = (1, 3, lambda v, r, x: convolution.convolution_2d(r[0], [K3, K35 * 0.5, K13][v]), True, 'small')
     C['binary'] = (1, 3, lambda v, r, x: classify.binary(r[0], [[1], [2, 3], [0, 4, 5]][v]), True, 'small')
@@ -56,8 +56,8 @@ def _catalogue():
     C['natural_breaks'] = (1, 3, lambda v, r, x: classify.natural_breaks(r[0], k=[5, 3, 4][v], **({} if v < 2 else {'num_sample': 10})), False, 'elev')
     for nm, n in (('arvi', 3), ('gci', 2), ('nbr', 2), ('nbr2', 2), ('ndvi', 2), ('ndmi', 2), ('sipi', 3), ('ebbi', 3)):
         C[nm] = (n, 1, (lambda f: lambda v, r, x: f(*r))(getattr(ms, nm)), True, 'band')
-    C['evi'] = (3, 3, lambda v, r, x: [ms.evi(*r), ms.evi(*r, c1=1.0, c2=2.0, soil_factor=0.5, gain=1.0), ms.evi(*r, gain=5.0)][v], True, 'band')
-    C['savi'] = (2, 3, lambda v, r, x: [ms.savi(*r), ms.savi(*r, soil_factor=0.0), ms.savi(*r, soil_factor=-0.5)][v], True, 'band')
+    C['evi'] = (3, 3, lambda v, r, x: [lambda: ms.evi(*r), lambda: ms.evi(*r, c1=1.0, c2=2.0, soil_factor=0.5, gain=1.0), lambda: ms.evi(*r, gain=5.0)][v](), True, 'band')
+    C['savi'] = (2, 3, lambda v, r, x: [lambda: ms.savi(*r), lambda: ms.savi(*r, soil_factor=0.0), lambda: ms.savi(*r, soil_factor=-0.5)][v](), True, 'band')
     C['true_color'] = (3, 2, lambda v, r, x: ms.true_color(*r) if v == 0 else ms.true_color(*r, nodata=3, c=5.0, th=0.2), True, 'band')
     for nm in ('proximity', 'allocation', 'direction'):
         f = getattr(xrspatial, nm)
@@ -74,24 +74,24 @@ def _catalogue():
                 return f(r[0], **kw)
             return call
         C[nm] = (1, 12, _prox(f), True, 'targets')
-    C['a_star_search'] = (1, 4, lambda v, r, x: [xrspatial.a_star_search(r[0], x['start'], x['goal'], barriers=[0]),
-                                                xrspatial.a_star_search(r[0], x['start'], x['goal'], barriers=[0], connectivity=4),
-                                                xrspatial.a_star_search(r[0], x['start'], x['goal'], barriers=[0, 1], snap_start=True, snap_goal=True),
-                                                xrspatial.a_star_search(r[0], x['goal'], x['start'], barriers=[])][v], False, 'targets')
-    C['viewshed'] = (1, 3, lambda v, r, x: [xrspatial.viewshed(r[0], x=x['vx'], y=x['vy']), xrspatial.viewshed(r[0], x=x['vx'], y=x['vy'], observer_elev=5),
-                                           xrspatial.viewshed(r[0], x=x['vx2'], y=x['vy'], observer_elev=1, target_elev=2)][v], False, 'elev')
+    C['a_star_search'] = (1, 4, lambda v, r, x: [lambda: xrspatial.a_star_search(r[0], x['start'], x['goal'], barriers=[0]),
+                                                lambda: xrspatial.a_star_search(r[0], x['start'], x['goal'], barriers=[0], connectivity=4),
+                                                lambda: xrspatial.a_star_search(r[0], x['start'], x['goal'], barriers=[0, 1], snap_start=True, snap_goal=True),
+                                                lambda: xrspatial.a_star_search(r[0], x['goal'], x['start'], barriers=[])][v](), False, 'targets')
+    C['viewshed'] = (1, 3, lambda v, r, x: [lambda: xrspatial.viewshed(r[0], x=x['vx'], y=x['vy']), lambda: xrspatial.viewshed(r[0], x=x['vx'], y=x['vy'], observer_elev=5),
+                                           lambda: xrspatial.viewshed(r[0], x=x['vx2'], y=x['vy'], observer_elev=1, target_elev=2)][v](), False, 'elev')
     C['regions'] = (1, 2, lambda v, r, x: zonal.regions(r[0], neighborhood=[4, 8][v]), False, 'targets')
     def _zstats(v, r, x):
         if v == 4:      # user reducers, one of them named like a built-in statistic (NumPy backend only)
             return zonal.stats(r[0], r[1], stats_funcs={'std': lambda z: float(np.std(z, ddof=1)) if len(z) > 1 else 0.0, 'mean': lambda z: float(np.median(z))})
-        return [zonal.stats(r[0], r[1]), zonal.stats(r[0], r[1], stats_funcs=['sum', 'count']), zonal.stats(r[0], r[1], zone_ids=[2, 1], nodata_values=3),
-                zonal.stats(r[0], r[1], stats_funcs=['var', 'min'], zone_ids=[0, 3])][v]
+        return [lambda: zonal.stats(r[0], r[1]), lambda: zonal.stats(r[0], r[1], stats_funcs=['sum', 'count']), lambda: zonal.stats(r[0], r[1], zone_ids=[2, 1], nodata_values=3),
+                lambda: zonal.stats(r[0], r[1], stats_funcs=['var', 'min'], zone_ids=[0, 3])][v]()
     C['zonal.stats'] = (2, 5, _zstats, True, 'zones')
-    C['zonal.crosstab'] = (2, 3, lambda v, r, x: [zonal.crosstab(r[0], r[1]), zonal.crosstab(r[0], r[1], agg='percentage', cat_ids=[1, 3]), zonal.crosstab(r[0], r[1], zone_ids=[3, 1], nodata_values=2)][v], True, 'zones')
+    C['zonal.crosstab'] = (2, 3, lambda v, r, x: [lambda: zonal.crosstab(r[0], r[1]), lambda: zonal.crosstab(r[0], r[1], agg='percentage', cat_ids=[1, 3]), lambda: zonal.crosstab(r[0], r[1], zone_ids=[3, 1], nodata_values=2)][v](), True, 'zones')
     C['zonal.trim'] = (1, 2, lambda v, r, x: zonal.trim(r[0], values=[(0,), (0, 1)][v]), False, 'targets')
     C['zonal.crop'] = (2, 2, lambda v, r, x: zonal.crop(r[0], r[1], zones_ids=[(1,), (2, 3)][v]), False, 'zones')
     C['polygonize'] = (1, 2, lambda v, r, x: polygonize(r[0], connectivity=[4, 8][v]), False, 'targets')
-    C['perlin'] = (1, 3, lambda v, r, x: [xrspatial.perlin(r[0]), xrspatial.perlin(r[0], freq=(3, 2), seed=11), xrspatial.perlin(r[0], seed=11)][v], True, 'zeros')
+    C['perlin'] = (1, 3, lambda v, r, x: [lambda: xrspatial.perlin(r[0]), lambda: xrspatial.perlin(r[0], freq=(3, 2), seed=11), lambda: xrspatial.perlin(r[0], seed=12)][v](), True, 'zeros')
     C['generate_terrain'] = (1, 2, lambda v, r, x: xrspatial.generate_terrain(r[0], x_range=(0, 100), y_range=(0, 50), seed=[3, 7][v], zfactor=[4000, 10][v]), True, 'zeros')
     C['circle_kernel'] = (0, 4, lambda v, r, x: convolution.circle_kernel(*[(1, 1, 3), (1, 2, 3), (1, 1, 2), (2, 2, '6 m')][v]), False, 'none')
     C['annulus_kernel'] = (0, 4, lambda v, r, x: convolution.annulus_kernel(*[(1, 1, 3, 1), (1, 2, 3, 1), (1, 1, 2, 1), (2, 2, 6, 2)][v]), False, 'none')
@@ -388,6 +388,12 @@ def check_joint(rec, idx, rng, tier):
         A = str(rng.choice(cands))
         others = [s for s in cands if s.split('|')[1] != A.split('|')[1]] or cands
         B = str(rng.choice(others))
+        if nm in heavy:
+            # proximity family: B differs from A in exactly one of (targets, metric, max_distance)
+            va = int(A.split('|')[1]); t, m, d = va // 6, (va // 3) % 2, va % 3
+            which = int(rng.integers(0, 3))
+            t2, m2, d2 = (1 - t, m, d) if which == 0 else ((t, 1 - m, d) if which == 1 else (t, m, (d + 1) % 3))
+            B = '|'.join([nm, str(t2 * 6 + m2 * 3 + d2)] + A.split('|')[2:])
         if rng.random() < 0.7:
             B = B.split('|'); B[2] = A.split('|')[2]; B = '|'.join(B)          # same dtype: the rasters of A and B are then identical for one seed
         shared_first = nm in ('ndvi', 'ndmi', 'nbr', 'nbr2', 'savi', 'gci') and rng.random() < 0.5
